@@ -134,6 +134,12 @@ def apply_op(hs, g, R, o):
         if n == 'delslice':
             del g[arg(o['a']):arg(o['b'])]
             return ['None'], g
+        if n == 'setslice':
+            g[arg(o['a']):arg(o['b'])] = arg_form(hs, R, o['rs'])
+            return ['None'], g
+        if n == 'setslice_row':
+            g[arg(o['a']):arg(o['b'])] = R.objs[o['r']]
+            return ['None'], g
         if n == 'pop':
             x = g.pop() if o['i'] == NOARG else g.pop(o['i'])
             return ['row', R.rid(x)], g
@@ -462,7 +468,7 @@ def run_engine(rep, tier, focus):
         if tier == 'quick':
             # quick: every operation from every state, but index arguments thinned deterministically
             work_items = [w for i, w in enumerate(work_items)
-                          if w[1]['name'] not in ('insert', 'setitem', 'delslice', 'slice', 'extend', 'iadd')
+                          if w[1]['name'] not in ('insert', 'setitem', 'delslice', 'slice', 'extend', 'iadd', 'setslice', 'setslice_row')
                           or i % 3 == seed() % 3]
         chunks = [work_items[i::NCPU * 4] for i in range(NCPU * 4)]
         with multiprocessing.get_context('fork').Pool(NCPU, initializer=_init_worker,
@@ -543,7 +549,8 @@ def random_history(hs, rng, spec, codes, length):
     parked = None      # the other live grid: the parent of the last derivation (or the derived grid after a switch)
     quiet = 0          # number of coming events after which no lookup by id is observed
     names = ['append'] * 5 + ['insert'] * 4 + ['setitem'] * 4 + ['delitem'] * 3 + ['delslice', 'pop', 'pop', 'remove',
-             'reverse', 'extend', 'extend', 'iadd', 'slice', 'slice', 'filter_id', 'filter_limit', 'clear']
+             'reverse', 'extend', 'extend', 'iadd', 'slice', 'slice', 'filter_id', 'filter_limit', 'clear',
+             'setslice', 'setslice', 'setslice_row']
     for _ in range(length):
         n = len(g._row)
         name = rng.choice(names)
@@ -586,6 +593,11 @@ def random_history(hs, rng, spec, codes, length):
                 o['a'] = rng.choice([NOARG, 0, -n]); o['b'] = rng.choice([NOARG, n, n + 1])   # the whole grid
         elif name in ('extend', 'iadd'):
             o['rs'] = [RW() for _ in range(rng.randint(0, 3))]
+        elif name == 'setslice':
+            o['a'] = SL(); o['b'] = SL()
+            o['rs'] = [RW() for _ in range(rng.randint(0, 3))]
+        elif name == 'setslice_row':
+            o['a'] = SL(); o['b'] = SL(); o['r'] = RW()
         elif name == 'filter_limit':
             o['n'] = rng.randint(1, 3)
         if name in ('slice', 'filter_id', 'filter_limit') and rng.random() < 0.5 and n > 6:
